@@ -151,8 +151,9 @@ class C19(PropBase):
         for i in range(ncls):
             base = None
             bhd = False
-            if classes and rng.random() < 0.4:
-                b = rng.choice(classes)
+            if classes and rng.random() < 0.5:
+                # (chains: the class declared last is the likeliest base, so Grand <- Parent <- Child occurs)
+                b = classes[-1] if rng.random() < 0.6 else rng.choice(classes)
                 base = b["n"]
                 bhd = any("default" in f or "factory" in f for f in b["all_fields"])
                 if b["flags"].get("frozen") or rng.random() < 0.0:
